@@ -702,6 +702,74 @@ def passes_param(view, f, pidx):
     return out
 
 
+def is_slot_range_var(t):
+    """the loop variable of `for i in 0..map.len()`: every slot number of the map, once, in order"""
+    t = strip(t)
+    for x in walk(t):
+        if x[0] == "call" and x[1].split("::")[-1] == "next" and x[2]:
+            for y in walk(x[2][0]):
+                if y[0] == "adt" and y[1].split("::")[-1] == "Range" and len(y[3]) == 2 and const_int(strip(y[3][0])) == 0:
+                    hi = strip(y[3][1])
+                    if hi[0] == "call" and hi[1].split("::")[-1] == "len" and hi[2] and component(hi[2][0]) and component(hi[2][0])[0] == "map":
+                        return True
+    return False
+
+
+def slot_scan_ok(view, f, bb, t):
+    """the predicate is invoked at (f, bb) once per slot of the map, before any structural change: the call sits in a loop
+    over `0..map.len()`, on every path through the loop body, its arguments are the two halves of `map.get_index_mut2(i)`
+    for the loop variable i, the verdict is pushed onto a vector exactly once per iteration, and that vector - in order - is
+    what the closure handed to `retain2` answers with (which runs no user code of its own).  -> (ok, why)"""
+    vp, fx, prog = view.vp, view.fx, view.prog
+    lp = f.cfg.in_loop(bb)
+    if not lp or len(lp) != 1:
+        return False, "the predicate is not invoked inside exactly one loop"
+    loop = lp[0]
+    a = vp.operand(f, t["args"][1])
+    lookups = [x for x in walk(a) if x[0] == "call" and x[1].split("::")[-1] == "get_index_mut2" and len(x[2]) == 2
+               and component(x[2][0]) and component(x[2][0])[0] == "map"]
+    if not lookups or not all(is_slot_range_var(x[2][1]) for x in lookups):
+        return False, "the predicate's arguments are not the entry at slot i of a loop over 0..map.len()"
+    # every iteration invokes it and records the verdict
+    pushes = [b2 for b2, t2 in f.calls() if "func" in t2 and t2["func"]["key"] == "std::vec::Vec::push" and b2 in loop["body"]]
+    site = vp.call_term(f, bb, t)
+    pushes = [b2 for b2 in pushes if contains_term(vp.operand(f, f.term(b2)["args"][1]), site)]
+    if len(pushes) != 1:
+        return False, "the verdict is not pushed exactly once per iteration (%d pushes of it)" % len(pushes)
+    for (tail, head) in loop["backedges"]:
+        pass
+    hdr = loop["header"]
+    for must in (bb, pushes[0]):
+        for (tail, head) in loop["backedges"]:
+            # a path from the loop header back to itself avoiding `must`
+            if f.cfg.escape_path(hdr, {must}, targets={tail}) is not None and must != tail:
+                return False, "an iteration can skip the predicate / the recording of its verdict"
+    # structural map writes only after the loop; the retain2 closure answers from the recorded verdicts
+    keepvec = strip(vp.operand(f, f.term(pushes[0])["args"][0]))
+    rets = [(g, b2, t2) for g in prog.family(f.key) for b2, t2 in g.calls() if "func" in t2 and t2["func"]["name"] == "retain2"]
+    if len(rets) != 1 or rets[0][0] is not f or f.cfg.in_loop(rets[0][1]):
+        return False, "retain2 is not called exactly once, after the scan"
+    ci = fx.call_info(f, rets[0][1])
+    cls = [c for c in ci.closures if prog.fn(c) is not None and prog.fn(c).is_closure]
+    if len(cls) != 1:
+        return False, "retain2 is not handed exactly one crate closure"
+    cl = prog.fn(cls[0])
+    if "MRUC" in fx.effects.get(cl.key, ()):
+        return False, "the closure handed to retain2 runs user code"
+    r = strip(ret_term(view, cl))
+    names = [x[1].split("::")[-1] for x in walk(r) if x[0] == "call"]
+    if "next" not in names or not any(n in ("unwrap_or", "unwrap", "unwrap_or_default", "expect") for n in names):
+        return False, "the closure handed to retain2 does not answer with the next recorded verdict (%s)" % term_str(r)[:60]
+    return True, "invoked once per slot in a scan over 0..map.len(); retain2 replays the recorded verdicts in order"
+
+
+def contains_term(t, site):
+    for x in walk(t):
+        if x[0] == "call" and len(x) > 3 and x[3] == site[3]:
+            return True
+    return False
+
+
 def pred_chain(view, f, pidx, depth=0, invoke_ok=()):
     """where does the closure parameter pidx of f end up?  -> (terminals [(fn key, bb, callee key)], problems [str], hops [str])
     a hop is: handing the parameter on as an argument (crate callee: followed; external callee: terminal), or capturing it
@@ -746,7 +814,12 @@ def pred_chain(view, f, pidx, depth=0, invoke_ok=()):
                         if g.cfg.in_loop(bb):
                             probs.append("invoked inside a loop of %s" % short(g.key))
                     else:
-                        probs.append("%s invokes the predicate itself" % short(f.key))
+                        oks, whys = slot_scan_ok(view, f, bb, t)
+                        if oks:
+                            hops.append("scan in %s" % short(f.key))
+                            terms.append((f.key, bb, "scan:each-slot-once"))
+                        else:
+                            probs.append("%s invokes the predicate itself (%s)" % (short(f.key), whys))
                     continue
                 # adapter closure
                 calls = [(b2, t2) for b2, t2 in g.calls() if "func" in t2 and (t2["func"].get("trait") or "").startswith("std::ops::Fn")
@@ -851,9 +924,10 @@ def r_once(ctx, view):
             q = prog.fn("%s::%s" % (Q, nm))
             ctx.anchor("%s::%s" % (Q, nm), q is not None)
             terms, probs, hops = pred_chain(view, q, 2)
-            ok = not probs and len(terms) == 1 and terms[0][2].endswith("retain2")
+            ok = not probs and len(terms) == 1 and (terms[0][2].endswith("retain2") or terms[0][2] == "scan:each-slot-once")
             ctx.ob("R-ONCE", "%s::%s:predicate-chain" % (QNAME[Q], nm), ok, q.loc(),
-                   ("the predicate reaches IndexMap::retain2 exactly once, every hop on every path and outside loops (%s)" % " -> ".join(hops)) if ok else
+                   ("the predicate reaches, every hop on every path and outside loops, the one place that applies it once per element - "
+                    "IndexMap::retain2, or a scan over every slot whose verdicts retain2 replays (%s)" % " -> ".join(hops)) if ok else
                    "predicate chain: terminals %s; problems: %s" % ([(short(t[0]), t[2].split("::")[-1]) for t in terms], "; ".join(probs) or "-"))
     # change_priority_by: the priority setter is run only by the Store primitive (which R-ASSIGN shows runs it exactly once, on the
     # found entry): no queue-level code applies it to anything
